@@ -730,6 +730,13 @@ func (x *exec) applyContractInfo(st *pstate, c *Contract, ci callInfo, args []Va
 			x.checkValueInv(st, at, argTypes[i], fmt.Sprintf("%s.typeinv[%d]", ob, i), in.Pos(), "the argument passed to "+ci.name)
 		}
 	}
+	// recursion: a function with a `decreases` measure calls itself only with a smaller, non-negative measure
+	if c == x.c && c.C.Decreases != nil && x.entryMeasure != nil {
+		ev.Pos = c.C.Decreases.Pos
+		m := ev.as64(ev.coerce(ev.Eval(c.C.Decreases.E), tInt))
+		x.check(st, ob+".decreases", "termination", smt.And(smt.BVSge(m, bv64(0)), smt.BVSlt(m, x.entryMeasure)), in.Pos(),
+			"the measure of the recursive call is non-negative and smaller: "+c.C.Decreases.Text)
+	}
 	x.monitorCallPre(st, c, ci, args, in)
 	pre := st.heapSnapshot()
 	evPre := mkEval(pre, pre)
